@@ -55,11 +55,11 @@ pub fn tensor_prime(values: &[Fr]) -> (r: Vec<Fr>)
 
 pub struct HyraxPC;
 impl HyraxPC {
-//@fn id=hyrax.pedersen_commit file=poly-commit/src/hyrax/mod.rs scope="impl<G, P> HyraxPC<G, P>" name=pedersen_commit props=C10,C08
+//@fn id=hyrax.pedersen_commit file=poly-commit/src/hyrax/mod.rs scope="impl<G, P> HyraxPC<G, P>" name=pedersen_commit props=C10,C08,C19
     fn pedersen_commit(key: &[G1Affine], scalars: &[Fr]) -> (r: G1)
     ensures
         key@.len() == scalars@.len(),
-        r@ == pedersen(key@, fviews(scalars@)),   // name=hyrax.pedersen_commit.value props=C10,C08
+        r@ == pedersen(key@, fviews(scalars@)),   // name=hyrax.pedersen_commit.value props=C10,C08,C19
 //@body
 //@closure |s| => |s: &Fr| -> (b: BigInt) ensures b@ == s@
 //@after /let scalars_bigint =/
